@@ -69,7 +69,7 @@ instance (E : Ext) (lang : LangCfg) (it : RustItem) : Decidable (ItemIn E lang i
   cases lang <;> infer_instance
 
 /-- the Scala package name is a dotted identifier fragment (with or without a dot: since the `fix:`
-commit fb91590 a name without a dot is its own innermost package) -/
+commit 653aee1 a name without a dot is its own innermost package) -/
 def scalaPackageOk (cfg : Scala.Cfg) : Prop := Dotted cfg.package
 
 instance (cfg : Scala.Cfg) : Decidable (scalaPackageOk cfg) := by
